@@ -196,7 +196,7 @@ func genPathSafe(rt *rapid.T, fd protoreflect.FieldDescriptor, l string) protore
 		switch fd.Kind() {
 		case protoreflect.StringKind:
 			s := v.String()
-			if s == "" || s == "." || s == ".." {
+			if s == "" || s == "." || s == ".." || s == "/" {
 				if tries > 20 {
 					return protoreflect.ValueOfString("p")
 				}
